@@ -1,10 +1,10 @@
 SPECIFICATION Spec
 CONSTANTS
   OpenDev = {}
-  States <- SetStates
-  CmdU <- SetCmds
-  Relevant <- AllRelevant
-  Fam = "sets"
+  States <- StrStates
+  CmdU <- StrCmds
+  Relevant <- StrRelevant
+  Fam = "strings"
 ACTION_CONSTRAINT Emit
 VIEW View
 INVARIANT WellFormed
